@@ -22,6 +22,7 @@ import (
 	"net/http"
 	"net/url"
 	"os"
+	"strconv"
 	"syscall"
 
 	"github.com/saucelabs/forwarder/internal/martian"
@@ -371,4 +372,50 @@ func vfH_C12_connectreply() {
 	}
 	// what the client gets is the upstream's whole message or none of it - never a fragment presented as complete
 	vfrt.Assert(len(body) == 0 || bytes.Equal(body, full) || !bytes.HasPrefix(full, body), "connectreply/no-truncated-upstream-body-presented-as-complete")
+}
+
+//vf:assume C12-oddreply: the origin's reply is one net/http accepts but that is unusual: a status line without a reason phrase (Status "204" / "304" / "200"), an empty Status with only a code, a reason phrase of symbolic bytes; for HEAD and GET requests, bodiless and bodied statuses; the proxy must not crash and must answer with one well-formed response
+
+//vf:harness property=C12 nopanic reach=oddreply-no-reason,oddreply-empty-status,oddreply-symbolic-reason steps=8000000
+func vfH_C12_oddreply() {
+	cfg := HTTPProxyConfig{}
+	cfg.Name = "fw"
+	cfg.ProxyLocalhost = AllowProxyLocalhost
+	hp := vfNewHTTPProxy(cfg)
+	rt := hp.transport.(*vfRoundTripper)
+	code := []int{200, 204, 304}[vfrt.Choice("status", 3)]
+	method := []string{"GET", "HEAD"}[vfrt.Choice("head-request", 2)]
+	var status string
+	switch vfrt.Choice("status-text", 3) {
+	case 0:
+		vfrt.Reach("oddreply-no-reason")
+		status = strconv.Itoa(code)
+	case 1:
+		vfrt.Reach("oddreply-empty-status")
+	case 2:
+		vfrt.Reach("oddreply-symbolic-reason")
+		r := vfrt.String("reason", 2)
+		for i := 0; i < 2; i++ {
+			vfrt.Assume(r[i] >= 0x20)
+			vfrt.Assume(r[i] < 0x7f)
+		}
+		status = strconv.Itoa(code) + " " + r
+	}
+	rt.respond = func(req *http.Request, n int) (*http.Response, error) {
+		res := &http.Response{StatusCode: code, Status: status, ProtoMajor: 1, ProtoMinor: 1, Header: http.Header{}, Request: req, ContentLength: 2, Body: io.NopCloser(bytes.NewReader([]byte("ok")))}
+		if code != 200 || method == "HEAD" {
+			res.ContentLength, res.Body = 0, http.NoBody
+		}
+		return res, nil
+	}
+	conn := martian.NewVfConn([]byte(method + " http://example.com/a HTTP/1.1\r\nHost: example.com\r\n\r\n"))
+	martian.VfServeConn(hp.proxy, conn)
+	res, perr := http.ReadResponse(bufio.NewReader(bytes.NewReader(conn.Out.Bytes())), &http.Request{Method: method})
+	vfrt.Assert(perr == nil, "oddreply/client-gets-a-well-formed-response")
+	if perr != nil {
+		return
+	}
+	vfrt.Assert(res.StatusCode == code, "oddreply/status-code-kept")
+	_, berr := io.ReadAll(res.Body)
+	vfrt.Assert(berr == nil, "oddreply/response-complete")
 }
